@@ -272,8 +272,13 @@ static void op_ksreal(const V &a, V &r) {  // n nout t b nsamples seed alpha_num
     LweParams *po = new_LweParams(nout, alpha, 0.25), *pi = new_LweParams(n, alpha, 0.25);
     LweKey *kin = new_LweKey(pi), *kout = new_LweKey(po);
     lweKeyGen(kin); lweKeyGen(kout);
-    LweKeySwitchKey *ks = new_LweKeySwitchKey(n, t, b, po);
-    if (a.size() > 8 && a[8] == 1) lweCreateKeySwitchKey_old(ks, kin, kout); else lweCreateKeySwitchKey(ks, kin, kout);     // optional 9th argument: the _old generator
+    // optional 9th argument: 1 = the _old generator; 2 = the key is element 0 of an array of three keys (new_LweKeySwitchKey_array), the other two
+    // generated afterwards for other source secrets (keys of one array are independent objects)
+    const int arr = (a.size() > 8 && a[8] == 2) ? 3 : 0;
+    LweKeySwitchKey *ksa = arr ? new_LweKeySwitchKey_array(arr, n, t, b, po) : 0;
+    LweKeySwitchKey *ks = arr ? &ksa[0] : new_LweKeySwitchKey(n, t, b, po);
+    if (a.size() > 8 && a[8] == 1) lweCreateKeySwitchKey_old(ks, kin, kout); else lweCreateKeySwitchKey(ks, kin, kout);
+    for (int q = 1; q < arr; q++) { LweKey *k2 = new_LweKey(pi); lweKeyGen(k2); lweCreateKeySwitchKey(&ksa[q], k2, kout); delete_LweKey(k2); }
     std::vector<int32_t> e((size_t) n * t * base); ll h0bad = 0, maxrow = 0;
     for (int i = 0; i < n; i++) for (int j = 0; j < t; j++) for (int h = 0; h < base; h++) {
         LweSample *row = &ks->ks[i][j][h];
@@ -303,7 +308,7 @@ static void op_ksreal(const V &a, V &r) {  // n nout t b nsamples seed alpha_num
         if (llabs(sume) > maxsum) maxsum = llabs(sume);
     }
     r.push_back(bad); r.push_back(ns); r.push_back(maxsum); r.push_back(h0bad); r.push_back(maxrow);
-    delete_LweSample(res); delete_LweSample(in); delete_LweKeySwitchKey(ks); delete_LweKey(kout); delete_LweKey(kin); delete_LweParams(pi); delete_LweParams(po);
+    delete_LweSample(res); delete_LweSample(in); if (arr) delete_LweKeySwitchKey_array(arr, ksa); else delete_LweKeySwitchKey(ks); delete_LweKey(kout); delete_LweKey(kin); delete_LweParams(pi); delete_LweParams(po);
 }
 // exhaustive sweep of one mask coefficient over [lo,hi) on a noiseless key (n = 1, s_in = 1, nout = 2):
 // phase_out - phase_in must equal a - round(a), within [-2^(31-tb), 2^(31-tb)); returns failures, first, sum of errors
